@@ -586,7 +586,7 @@ class Interp:
             st, bb = work.pop()
             while True:
                 steps += 1
-                if steps > 200000:
+                if steps > 3000000:
                     raise Unsupported("step budget exceeded in " + fn.name)
                 blk = fn.blocks[bb]
                 try:
